@@ -483,8 +483,8 @@ theorem src_preload_address_eq (s : Py.SliceSt R) : viewR addrM (preload_address
             by_cases hodd : r3 % 2 ≠ 0
             · have hodd' : ((((r3 : Nat) : Int) % 2) != 0) = true := by simp; omega
               rw [if_pos hodd, hodd']
-              simp only [if_true, ← hcopy, Py.bindO]
-              cases (load_address (⟨s.bits, s.refs.drop s.ref_offset, 0⟩ : Py.SliceSt R)).2 <;> rfl
+              simp only [if_true, ← hcopy, Py.bindO, Py.bindL]
+              cases hx : (load_address (⟨s.bits, s.refs.drop s.ref_offset, 0⟩ : Py.SliceSt R)).2 <;> simp [hx, viewR, view]
             · have hodd' : ((((r3 : Nat) : Int) % 2) != 0) = false := by simp; omega
               rw [if_neg hodd, hodd']
               simp only [Bool.false_eq_true, if_false, Py.bindO, Py.slice]
